@@ -130,7 +130,33 @@ func (g *Gen) Step(depth int) Step {
 // Pred draws from the predicate classes of DESIGN §7 C02.
 func (g *Gen) Pred(depth int) Expr {
 	r := g.R
-	switch r.Intn(16) {
+	switch r.Intn(18) {
+	case 16, 17:
+		// number-valued predicates that depend on the context node: [n] must still be [position() = n] per node
+		self := Rel(Step{Axis: "self", Test: NodeT(), Abbrev: true})
+		cands := []Expr{Fn("position"), Fn("count", Rel(Step{Axis: "child", Test: AnyT(), Abbrev: true})), Fn("string-length", self),
+			Binary{"-", Fn("last"), Fn("count", Rel(Step{Axis: "child", Test: NodeT(), Abbrev: true}))}, Fn("number", self),
+			Binary{"+", Fn("count", Rel(Step{Axis: "attribute", Test: AnyT(), Abbrev: true})), N(1)}}
+		if len(g.C.Attrs) > 0 {
+			a := rng.Pick(r, g.C.Attrs)
+			cands = append(cands, Fn("number", Rel(Step{Axis: "attribute", Test: NameT(a.Prefix, a.Local), Abbrev: true})))
+		}
+		var ok []Expr
+		for _, c := range cands {
+			good := true
+			Walk(c, func(x Expr) {
+				if call, isCall := x.(Call); isCall && !g.has(call.Local) {
+					good = false
+				}
+			})
+			if good {
+				ok = append(ok, c)
+			}
+		}
+		if len(ok) > 0 {
+			return rng.Pick(r, ok)
+		}
+		return N(1)
 	case 0, 1:
 		return N(float64(r.Range(1, 4)))
 	case 2:
